@@ -57,7 +57,7 @@ def loop_heads(body):
 
 def o1(prog, rep):
     body = prog.main_body(V + "validate_vote_extensions")
-    ge = rel(body, "Ge", r"^submitted_voting_power$", r"total_voting_power")
+    ge = rel(body, "Ge", r"^submitted_voting_power$", r"total_voting_power", pure=False)
     if not ge:
         rep.fail("O1", "threshold-compare", "comparison of submitted power with the threshold "
                  "not found", body.describe())
